@@ -30,6 +30,9 @@ type ScaleCase struct {
 	DB   int       `json:"db"`
 	Ops  []ScaleOp `json:"ops"`
 	Deps bool      `json:"deps"` // app depends on db-less process `one`
+	// BackoffDown: db restarts on exit; its last replica exits, is parked right after its back-off
+	// (before the relaunch), and db is scaled down by one: the removed replica must not come back
+	BackoffDown bool `json:"backoff_down,omitempty"`
 }
 
 func scaleProcs(web, db int) []sc.ProcSpec {
@@ -82,6 +85,16 @@ func checkScaleMode(c ScaleCase, stateOnly bool) pbt.Verdict {
 		return failState(format, a...)
 	}
 	s := &sc.Scenario{Procs: scaleProcs(c.Web, c.DB), FinishRounds: 3}
+	victim := ""
+	if c.BackoffDown && c.DB >= 2 {
+		victim = refName("db", c.DB, c.DB-1)
+		for i := range s.Procs {
+			if s.Procs[i].Name == "db" {
+				s.Procs[i].Restart = "always"
+			}
+		}
+		s.PreHolds = append(s.PreHolds, sc.Step{Op: sc.OpHold, Point: "run.afterBackoff", Proc: victim})
+	}
 	e, err := sc.Begin(s)
 	if errors.Is(err, sc.ErrLeftover) {
 		v.Skip = true
@@ -115,6 +128,40 @@ func checkScaleMode(c ScaleCase, stateOnly bool) pbt.Verdict {
 		}
 		return m, nil
 	}
+	if victim != "" {
+		e.Do(sc.Step{Op: sc.OpExit, Proc: victim, Code: 1})
+		if e.H.Busy != "" || !e.W.HoldEngaged("run.afterBackoff", victim) {
+			v.Skip = true
+			return v
+		}
+		seq0 := e.W.NumEvents()
+		e.Do(sc.Step{Op: sc.OpScale, Proc: refName("db", c.DB, 0), N: c.DB - 1})
+		e.Do(sc.Step{Op: sc.OpRelease, Point: "run.afterBackoff", Proc: victim})
+		if e.H.Busy != "" {
+			v.Skip = true
+			return v
+		}
+		for _, ev := range e.W.Events()[seq0:] {
+			if ev.Kind == world.EvLaunch && ev.Proc == victim && c.DB-1 >= 2 {
+				// (with one replica left the survivor is renamed to "db": names below)
+				return failState("replica %s was removed by the scale-down to %d while it waited to be relaunched, and was launched again afterwards (%s)", victim, c.DB-1, ev)
+			}
+		}
+		if c.DB-1 >= 2 {
+			if l := e.W.LiveCmds(victim); len(l) > 0 {
+				return failState("removed replica %s has a live command after the scale-down", victim)
+			}
+		} else {
+			// db-0 became db; the removed db-1 must be gone under either name
+			e.W.Rename(refName("db", c.DB, 0), "db")
+			if l := e.W.LiveCmds(victim); len(l) > 0 {
+				return failState("removed replica %s has a live command after the scale-down", victim)
+			}
+		}
+		c.DB--
+		count["db"] = c.DB
+		v.Labels = append(v.Labels, "scale-down-in-backoff")
+	}
 	crossed := false
 	ended := map[string]map[int]bool{"web": {}, "db": {}} // replicas (by number) that ended by themselves
 	for oi, op := range c.Ops {
@@ -130,7 +177,7 @@ func checkScaleMode(c ScaleCase, stateOnly bool) pbt.Verdict {
 		case "stale":
 			addr = refName(op.Proc, cur+5, cur+2) // a name no current replica has
 		}
-		if op.PreExit > 0 {
+		if op.PreExit > 0 && !(victim != "" && op.Proc == "db") { // (a db that restarts does not stay ended)
 			i := (op.PreExit - 1) % cur
 			if !ended[op.Proc][i] {
 				if e.Do(sc.Step{Op: sc.OpExit, Proc: refName(op.Proc, cur, i), Code: 0}) {
@@ -386,6 +433,7 @@ func lastEnv(env []string, key string) (string, bool) {
 
 func genScale(t *rapid.T) ScaleCase {
 	c := ScaleCase{Web: pbt.Pick(t, []int{0, 1, 2, 3}), DB: pbt.Pick(t, []int{0, 1, 2})}
+	c.BackoffDown = c.DB >= 2 && pbt.Pct(t, 40)
 	n := pbt.Range(t, 1, 6)
 	big := pbt.Pct(t, 15)
 	for i := 0; i < n; i++ {
